@@ -235,6 +235,16 @@ def rule_vi2(A: Analysis, rep, Q=None):
         tup = A.expand(ex[0].args[1], ins)
         ti, ver = ins.params[1], ins.params[2]
         ok = norm(tup) == "(str(%s), %s.timestamp, %s.commit_hash, 1 if %s.has_uncommitted_changes else 0)" % (ti, ver, ver, ver)
+        if not ok and isinstance(tup, ast.Tuple) and len(tup.elts) == 4 and [norm(x) for x in tup.elts[:3]] == ["str(%s)" % ti, "%s.timestamp" % ver, "%s.commit_hash" % ver]:
+            # the 0/1 flag through a local assigned on the two branches of an `if`: its reaching values at the execute
+            st_ = ex[0]
+            while not isinstance(st_, ast.stmt):
+                st_ = st_._parent
+            raw = ex[0].args[1]
+            raw = raw if isinstance(raw, ast.Tuple) else A.single_def_value(ins, raw.id) if isinstance(raw, ast.Name) else None
+            if isinstance(raw, ast.Tuple) and len(raw.elts) == 4:
+                rv = set(A.rvalues(ins, raw.elts[3], st_, keep=lambda a: a == "t(%s.has_uncommitted_changes)" % ver))
+                ok = rv == {(frozenset({("t(%s.has_uncommitted_changes)" % ver, True)}), "1"), (frozenset({("t(%s.has_uncommitted_changes)" % ver, False)}), "0")}
     rep.check(ok, "VI2", "INSERT bindings", ins.node, "(str(id), timestamp, commit_hash, dirty flag) in column order",
               "insert_output_version binds its values in a different order / from different fields")
     # consumers: every Version built from a selected row takes each field from the column of that name, whatever the
@@ -317,18 +327,30 @@ def rule_vi4(A: Analysis, rep):
         rel = {"<", "=", ">"}  # possible relation of t to L
         stored = None
         bad = None
+        env = {}     # other locals holding a symbolic value (`now`, `earliest_unused = last + 1`, …)
         for (n, lbl) in path:
             st = n.ast
-            if n.kind == "stmt" and isinstance(st, ast.Assign) and len(st.targets) == 1:
-                tg, v = norm(st.targets[0]), st.value
+            if n.kind == "stmt" and isinstance(st, (ast.Assign, ast.AnnAssign)) and getattr(st, "value", None) is not None and (isinstance(st, ast.AnnAssign) or len(st.targets) == 1):
+                tg, v = norm(st.targets[0] if isinstance(st, ast.Assign) else st.target), st.value
                 if norm(v) in ("int(time.time())", "int(time.time_ns() // 1000000000)"):
-                    var, val = tg, ("t", 0)
+                    if var is None:
+                        var, val = tg, ("t", 0)
+                    env[tg] = ("t", 0)
+                elif tg == L:
+                    stored = val if (var is not None and norm(v) == var) else _sym(v, var, val, L, env)
                 elif var is not None and tg == var:
-                    val = _sym(v, var, val, L)
+                    val = _sym(v, var, val, L, env)
+                    env[tg] = val
                     if val is None:
                         bad = "unrecognised timestamp expression `%s`" % norm(v)
-                elif tg == L:
-                    stored = val if (var is not None and norm(v) == var) else _sym(v, var, val, L)
+                else:
+                    s_ = _sym(v, var, val, L, env)
+                    if s_ is not None:
+                        env[tg] = s_
+                        # the variable that ends up in Version(...) may be a later local computed from the clock reading
+                        retv_ = path[-1][0].ast.value
+                        if isinstance(retv_, ast.Call) and retv_.args and norm(retv_.args[0]) == tg and tg != var:
+                            var, val = tg, s_
             elif n.kind == "stmt" and isinstance(st, ast.AugAssign) and var is not None and norm(st.target) == var:
                 if isinstance(st.op, ast.Add) and isinstance(st.value, ast.Constant) and isinstance(st.value.value, int) and val and val[0] in ("t", "L"):
                     val = (val[0], val[1] + st.value.value)
@@ -365,17 +387,24 @@ def rule_vi4(A: Analysis, rep):
               "; ".join(sorted(set(problems))) or "no feasible path")
 
 
-def _sym(v, var, cur, L):
+def _sym(v, var, cur, L, env=None):
     tx = norm(v)
+    env = env or {}
     if tx == L:
         return ("L", 0)
+    if isinstance(v, ast.Name) and tx != var and tx in env:
+        return env[tx]
+    if isinstance(v, ast.BinOp) and isinstance(v.op, ast.Add) and isinstance(v.right, ast.Constant) and isinstance(v.right.value, int) \
+            and isinstance(v.left, ast.Name) and norm(v.left) != var and norm(v.left) in env and env[norm(v.left)] and env[norm(v.left)][0] in ("t", "L"):
+        b_ = env[norm(v.left)]
+        return (b_[0], b_[1] + v.right.value)
     if isinstance(v, ast.BinOp) and isinstance(v.op, ast.Add) and isinstance(v.right, ast.Constant) and isinstance(v.right.value, int):
         if norm(v.left) == L:
             return ("L", v.right.value)
         if var is not None and norm(v.left) == var and cur and cur[0] in ("t", "L"):
             return (cur[0], cur[1] + v.right.value)
     if isinstance(v, ast.Call) and isinstance(v.func, ast.Name) and v.func.id == "max" and len(v.args) == 2:
-        parts = [_sym(a, var, cur, L) if norm(a) != var else cur for a in v.args]
+        parts = [_sym(a, var, cur, L, env) if norm(a) != var else cur for a in v.args]
         if all(p is not None for p in parts):
             return ("max", tuple(parts))
     if var is not None and tx == var:
